@@ -280,6 +280,27 @@ pub fn check_bytes(bytes: &[u8], st: &mut Stats, decoded: &dyn Fn() -> String) -
                     ));
                 }
             }
+            // the rendered message (what rspirv-dis prints) must not contradict the fields: where
+            // it writes "#<n>" that number is the instruction number, where it writes
+            // "offset <n>" that number is the offset the error carries (no anchors: nothing checked)
+            {
+                let text = no_panic("Display for ParseState", || format!("{}", e))?;
+                let num_after = |anchor: &str| -> Option<usize> {
+                    let at = text.find(anchor)? + anchor.len();
+                    let digits: String = text[at..].chars().take_while(|c| c.is_ascii_digit()).collect();
+                    digits.parse().ok()
+                };
+                if let (Some(shown), Some(i)) = (num_after("#"), idx_got) {
+                    if shown != i {
+                        return Err(fail("message-contradicts-fields", format!("{}:instruction-number", state_name(e)), format!("message {:?} names instruction #{}, the error value carries {}", text, shown, i)));
+                    }
+                }
+                if let (Some(shown), Some(o)) = (num_after("offset "), off_got) {
+                    if shown != o {
+                        return Err(fail("message-contradicts-fields", format!("{}:offset", state_name(e)), format!("message {:?} names offset {}, the error value carries {}", text, shown, o)));
+                    }
+                }
+            }
             st.count(&format!("verdict_{}", state_name(e)));
             st.count(&format!(
                 "fault_index_{}",
@@ -494,7 +515,7 @@ pub fn finish(ctx: &Ctx) -> i32 {
     crate::engine::finish(
         ctx,
         Finish {
-            rule: "cases: (a) negative sweep: every sweep instruction (every opcode min/max, every enumerant, every mask value, every embeddable opcode) intact / one word missing / one word surplus / enumerant replaced by the nearest undeclared value / lowest undeclared mask bit set, behind two well-formed instructions; (b) every truncation byte position of small generated modules; (c) random generated modules (layout-ordered, interleaved, wild) with 0-3 stacked byte-level faults (truncate, word count, opcode, operand word, delete/insert/duplicate word, string faults, magic, short header, stray bytes). Oracle: independent reference parser R1 decides accept / first malformed instruction / admissible fault classes from the bytes alone; compared with parse_bytes (and parse_words) result, delivered header and instructions, error class, instruction number and byte offset. non-trivial = rejected binary with >= 2 well-formed instructions before the fault, or accepted binary with >= 5 instructions; distinct = hash of the bytes.",
+            rule: "cases: (a) negative sweep: every sweep instruction (every opcode min/max, every enumerant, every mask value, every embeddable opcode) intact / one word missing / one word surplus / enumerant replaced by the nearest undeclared value / lowest undeclared mask bit set, behind two well-formed instructions; (b) every truncation byte position of small generated modules; (c) random generated modules (layout-ordered, interleaved, wild) with 0-3 stacked byte-level faults (truncate, word count, opcode, operand word, delete/insert/duplicate word, string faults, magic, short header, stray bytes). Oracle: independent reference parser R1 decides accept / first malformed instruction / admissible fault classes from the bytes alone; compared with parse_bytes (and parse_words) result, delivered header and instructions, error class, instruction number and byte offset; the Display text of the error must not contradict those fields (a number after '#' is the instruction number, a number after 'offset ' is the offset). non-trivial = rejected binary with >= 2 well-formed instructions before the fault, or accepted binary with >= 5 instructions; distinct = hash of the bytes.",
             assumptions: vec![
                 "grammar facts come from the golden snapshot (see C09)".into(),
                 "don't-care: 1-3 stray bytes after the last complete instruction; OpSpecConstantOp embedding OpConstant/OpSpecConstant/OpSwitch/OpSpecConstantOp (verdict open, no panic required by C04)".into(),
